@@ -41,9 +41,11 @@ Proof.
   apply (ledger_ok_intro _ _ _ (fun _ => True)); [exact OwnPipeline.pull_proto_law|exact I|reflexivity|].
   intros s _. apply OwnPipelineClose.pull_close_drains.
 Qed.
-Lemma push_ledger_ok : ledger_ok view_push PushModel.push_step PushModel.push_init OwnPipeline.push_ok OwnPipelineClose.push_close_script.
+(* either text of push0_set_send_buf_len (fr: blocked senders move into a resized buffer -- Gen/Consts.v
+   C06_PUSH_RESIZE_ADMITS_FIXED; ViewsCur.push_step_cur is the instance the model driver runs) *)
+Lemma push_ledger_ok : forall fr, ledger_ok view_push (PushModel.push_step_r fr) PushModel.push_init OwnPipeline.push_ok OwnPipelineClose.push_close_script.
 Proof.
-  apply (ledger_ok_intro _ _ _ PushProofs.PInv); [exact OwnPipeline.push_proto_law|exact (proj1 PushProofs.push_init_inv)|reflexivity|exact OwnPipelineClose.push_close_drains].
+  intros fr. apply (ledger_ok_intro _ _ _ PushProofs.PInv); [exact (OwnPipeline.push_proto_law_r fr)|exact (proj1 PushProofs.push_init_inv)|reflexivity|exact (OwnPipelineClose.push_close_drains_r fr)].
 Qed.
 Lemma pub_ledger_ok : ledger_ok view_pub PubModel.pub_step PubModel.pub_init PubSubProofs3.pub_op_ok OwnPubSub.pub_close_script.
 Proof.
